@@ -59,6 +59,8 @@ def compile_all(modlists):
         shutil.rmtree(d, ignore_errors=True); sys.modules.pop("c25_progs", None)
     return out
 
+SIG_PROBLEMS = []
+
 def modifier_chain(hugr, fname):
     """ops between LoadFunc of the block body and the CallIndirect, with arities / operands"""
     fn = [n for n in hugr.descendants() if isinstance(hugr[n].op, ops.FuncDefn) and hugr[n].op.f_name == fname][0]
@@ -92,6 +94,17 @@ def modifier_chain(hugr, fname):
         if nm == "ControlModifier":
             a0 = args[0]
             info["arity"] = getattr(a0, "n", None)
+            # the op's type arguments must describe the function it wraps: args[1] lists the types the wrapped
+            # function takes first and hands back (in that order), args[2] its remaining inputs
+            try:
+                fsrc = [outs[0] for ip, outs in hugr.incoming_links(cur) if ip.offset == 0][0]
+                fty = hugr.port_type(fsrc)
+                inout = [getattr(x, "ty", x) for x in getattr(args[1], "elems", [])]
+                other = [getattr(x, "ty", x) for x in getattr(args[2], "elems", [])]
+                if list(fty.input) != inout + other or list(fty.output) != inout:
+                    SIG_PROBLEMS.append(f"ControlModifier wraps a function {[str(t_) for t_ in fty.input]} -> {[str(t_) for t_ in fty.output]} but its type arguments say inout={[str(t_) for t_ in inout]} other={[str(t_) for t_ in other]}")
+            except Exception as ex:  # noqa
+                SIG_PROBLEMS.append("cannot read the signature of a ControlModifier: " + repr(ex)[:120])
         if nm == "PowerModifier":
             e = src(cur, 1)
             eop = hugr[e].op if e is not None else None
@@ -138,11 +151,14 @@ def judge(mods, res, i):
     st, h = res
     if st == "rejected": return None
     if st != "ok": return "compiler crashed: " + str(h)
+    del SIG_PROBLEMS[:]
     try:
         chain, n_in, n_out = modifier_chain(h, f"f{i}")
     except RuntimeError as e:
         return "cannot read the modifier chain: " + str(e)
     chain = norm(chain)
+    if SIG_PROBLEMS:
+        return SIG_PROBLEMS[0]
     # "wrapped ... in source order": the body is wrapped by the first modifier first, so along the
     # chain LoadFunc -> ... -> call the ops appear in source order
     want = expected(mods)
